@@ -151,21 +151,48 @@ def execute_op(segno, spec, ctx):
             return {'ok': {'doc': sha(text.encode('utf-8')), 'len': len(text)}}, None
         if op == 'miter':
             q = _resolve(segno, spec, ctx)
-            it = q.matrix_iter(scale=spec['scale'], border=spec['border'], verbose=spec['verbose'])
+
+            def gen():
+                return q.matrix_iter(scale=spec['scale'], border=spec['border'], verbose=spec['verbose'])
+
+            def freeze(row):
+                return tuple(row)
+            mode = spec['consume']
             h = hashlib.sha1()
             n = 0
-            if spec['consume'] == 'all':
-                for row in it:
-                    h.update(repr(list(row)).encode())
-                    n += 1
-            else:
+            if mode == 'half':
+                it = gen()
                 for row in it:
                     h.update(repr(list(row)).encode())
                     n += 1
                     if n >= spec.get('rows', 3):
                         break
                 del it   # abandoned half-way
-            return {'ok': {'doc': h.hexdigest()[:20], 'rows': n}}, None
+                return {'ok': {'doc': h.hexdigest()[:20], 'rows': n}}, None
+            ref = [freeze(r) for r in gen()]          # row by row, frozen at once
+            for row in ref:
+                h.update(repr(list(row)).encode())
+            problems = []
+            if mode == 'list':
+                got = [freeze(r) for r in list(gen())]    # materialised first: rows must not be views of a reused buffer
+                if got != ref:
+                    problems.append('list(matrix_iter()) differs from consuming row by row')
+            elif mode == 'interleaved':
+                a, b = gen(), gen()
+                ra, rb = [], []
+                for x, y in zip(a, b):
+                    ra.append(freeze(x))
+                    rb.append(freeze(y))
+                if ra != ref or rb != ref:
+                    problems.append('two generators advanced alternately yield other rows than one generator alone')
+            elif mode == 'abandoned':
+                a = gen()
+                head = [freeze(next(a)) for _ in range(min(spec.get('rows', 3), len(ref)))]
+                full = [freeze(r) for r in gen()]         # another iteration while the first is suspended
+                tail = [freeze(r) for r in a]
+                if full != ref or head + tail != ref:
+                    problems.append('an iteration started while another generator is suspended (or the suspended one, resumed) yields other rows')
+            return {'ok': {'doc': h.hexdigest()[:20], 'rows': len(ref), 'consistent': not problems, 'problems': problems}}, None
         if op == 'reencode':
             q = _resolve(segno, spec, ctx)
             ms = spec['symspec']
@@ -302,7 +329,7 @@ def gen_use(rng, make_spec, name, allow_bad=True, cli_ok=True):
         return dict(base, op='terminal', border=rng.choice((None, 0, 2)), compact=rng.random() < 0.5, out=rng.choice(('stream', 'stdout')))
     if what == 'miter':
         return dict(base, op='miter', scale=rng.choice((1, 1, 2, 3)), border=rng.choice((None, 0, 3)), verbose=rng.random() < 0.5,
-                    consume=rng.choice(('all', 'half')), rows=rng.randint(1, 9))
+                    consume=rng.choice(('all', 'half', 'list', 'interleaved', 'abandoned')), rows=rng.randint(1, 9))
     return dict(base, op='reencode')
 
 
